@@ -85,7 +85,7 @@ func (u *Unit) strLit(s string) StrV {
 	var arr *Term
 	if len(s) <= 80 {
 		lit := s
-		arr = MkArr(func(i *Term) *Term {
+		arr = u.mkArr(func(i *Term) *Term {
 			if i.IsInt {
 				k := i.I.Int64()
 				if i.I.IsInt64() && k >= 0 && k < int64(len(lit)) {
@@ -495,7 +495,7 @@ func (u *Unit) store(st *State, fr *Frame, pos token.Pos, p PtrV, v Val) {
 		}
 		av := cur.(ArrV)
 		oldA, ei, nv := av.Arr, p.ElemIdx, v.(*Term)
-		na := MkArr(func(j *Term) *Term { return Ite(Eq(j, ei), nv, Select(oldA, j)) })
+		na := u.mkArr(func(j *Term) *Term { return Ite(Eq(j, ei), nv, Select(oldA, j)) })
 		u.storePath(st, base, ArrV{Arr: na, N: av.N})
 	default:
 		u.storePath(st, p, v)
